@@ -146,9 +146,24 @@ pub struct CellDesc {
     pub safety: SafetyDesc,
     /// outermost parallelogram coupling (driven, coupled, scaling): inner[coupled] = q[coupled] - scaling * q[driven]
     pub para: Option<(usize, usize, f64)>,
+    /// 0 = the plinth under the robot (base_mesh); 1 = the plinth plus, in the same mesh, a 1.7 m post standing 0.41 m
+    /// from the J1 axis in the direction J1 = 1.3 rad (a stationary robot body that is not rotationally symmetric)
+    pub base_shape: u8,
 }
 
 impl CellDesc {
+    pub fn base_body_mesh(&self) -> Mesh {
+        let mut m = base_mesh(self.base_subdiv);
+        if self.base_shape == 1 {
+            let (cx, cy) = (0.41 * 1.3f32.cos(), 0.41 * 1.3f32.sin());
+            let post = Mesh::boxed([cx - 0.05, cy - 0.05, 0.0], [cx + 0.05, cy + 0.05, 1.7], self.base_subdiv);
+            let off = m.verts.len() as u32;
+            m.verts.extend(post.verts.iter().cloned());
+            m.tris.extend(post.tris.iter().map(|t| [t[0] + off, t[1] + off, t[2] + off]));
+        }
+        m
+    }
+
     pub fn standard() -> CellDesc {
         CellDesc {
             params: cell_params(),
@@ -161,6 +176,7 @@ impl CellDesc {
             envs: vec![],
             safety: SafetyDesc::touch(0),
             para: None,
+            base_shape: 0,
         }
     }
 
@@ -194,7 +210,7 @@ impl CellDesc {
         RobotBody {
             joint_meshes: lm.map(|m| m.to_parry()),
             tool: self.tool.map(|_| tool_mesh(self.tool_subdiv).to_parry()),
-            base: self.base.map(|b| BaseBody { mesh: base_mesh(self.base_subdiv).to_parry(), base_pose: to_na(&b).cast::<f32>() }),
+            base: self.base.map(|b| BaseBody { mesh: self.base_body_mesh().to_parry(), base_pose: to_na(&b).cast::<f32>() }),
             collision_environment: self
                 .envs
                 .iter()
@@ -238,7 +254,7 @@ impl CellDesc {
             bodies.push((J_TOOL, tool_mesh(self.tool_subdiv).world_tris(&poses[5])));
         }
         if let Some(b) = &self.base {
-            bodies.push((J_BASE, base_mesh(self.base_subdiv).world_tris(b)));
+            bodies.push((J_BASE, self.base_body_mesh().world_tris(b)));
         }
         for (k, e) in self.envs.iter().enumerate() {
             bodies.push((ENV_START_IDX + k, e.mesh().world_tris(&e.pose)));
@@ -267,6 +283,7 @@ impl CellDesc {
             "envs": self.envs.iter().map(|e| json!({"lo": e.lo.to_vec(), "hi": e.hi.to_vec(), "subdiv": e.subdiv, "pose": iso_json(&e.pose), "shape": e.shape})).collect::<Vec<_>>(),
             "safety": self.safety.json(),
             "para": self.para.map(|(d, c, s)| json!([d, c, s])),
+            "base_shape": self.base_shape,
         })
     }
 
@@ -295,6 +312,7 @@ impl CellDesc {
                 .collect(),
             safety: SafetyDesc::from_json(&v["safety"]),
             para: v["para"].as_array().map(|a| (a[0].as_u64().unwrap() as usize, a[1].as_u64().unwrap() as usize, a[2].as_f64().unwrap())),
+            base_shape: v["base_shape"].as_u64().unwrap_or(0) as u8,
         }
     }
 }
